@@ -36,6 +36,27 @@ M = [
     ("Model/ElfBytes.v", "let? size := ok_or (checked_mul entsize shnum) EIntegerOverflow in", "let? size := ok_or (checked_mul entsize (shnum + 0)) EIntegerOverflow in", ["C05"]),
     ("Model/Stream.v", "if r_slen r <? e then (Err (EBadOffset e), r) else", "if r_slen r <=? e then (Err (EBadOffset e), r) else", ["C07", "C08"]),
     ("Model/File.v", None, None, []),
+    # ---- batch 2
+    ("Model/ElfBytes.v", "if sh_type h =? SHT_NOBITS then Ok ((0, 0), None) else", "if sh_type h =? 0 then Ok ((0, 0), None) else", ["C03"]),
+    ("Model/ElfBytes.v", "if b - a <? off then Err (ESliceReadError off (sh_size h)) else Ok ((a + off, b), Some ch)", "if b - a <=? off then Err (ESliceReadError off (sh_size h)) else Ok ((a + off, b), Some ch)", ["C03"]),
+    ("Model/ElfBytes.v", "      | Some _, Some _, Some _ => (vs', nd', df')", "      | Some _, Some _, Some _ => symver_scan t vs' nd' df'", ["C13", "C07"]),
+    ("Model/ElfBytes.v", "Some (let? _ := validate_entsize 2 (sh_entsize vsh) in", "Some (let? _ := validate_entsize 2 2 in", ["C13", "C05"]),
+    ("Model/ElfBytes.v", "    Ok (sh_info h, dr, tr).", "    Ok (sh_info h, tr, dr).", ["C13"]),
+    ("Model/ElfBytes.v", "if negb (p_type h =? PT_NOTE) then Err (EUnexpectedSegmentType (p_type h) PT_NOTE) else", "if negb (p_type h =? PT_NOTE) then Err (EUnexpectedSectionType (p_type h) PT_NOTE) else", ["C20", "C03"]),
+    ("Model/ElfBytes.v", "let? r := section_data_typed SHT_NOTE h in Ok (r, sh_addralign h).", "let? r := section_data_typed SHT_NOTE h in Ok (r, sh_entsize h).", ["C14", "C03", "C20"]),
+    ("Model/Utf8.v", "inr 160 191 b && cont c && utf8_valid t3", "inr 128 191 b && cont c && utf8_valid t3", ["C15"]),
+    ("Model/Utf8.v", "inr 128 159 b && cont c && utf8_valid t3", "inr 128 191 b && cont c && utf8_valid t3", ["C15"]),
+    ("Model/Utf8.v", "inr 128 143 b && cont c && cont e && utf8_valid t4", "inr 128 191 b && cont c && cont e && utf8_valid t4", ["C15"]),
+    ("Model/Utf8.v", "else if inr 194 223 a then", "else if inr 192 223 a then", ["C15"]),
+    ("Model/Note.v", "Ok (fst r, snd r - count_trailing_nul bs) else Err EUtf8Error", "Ok (fst r, snd r) else Err EUtf8Error", ["C14"]),
+    ("Model/Structs.v", "Definition st_vis (y : sym) : N := N.land (st_other y) 3.", "Definition st_vis (y : sym) : N := N.land (st_other y) 7.", ["C02"]),
+    ("Model/Structs.v", "ret {| r_offset := o; r_sym := N.shiftr i 8; r_type := N.land i 255 |}", "ret {| r_offset := o; r_sym := N.shiftr i 8; r_type := N.land i 127 |}", ["C02"]),
+    ("Model/Structs.v", "| ELF64 => t <- u32 s d ;; _ <- u32 s d ;; z <- u64 s d ;; a <- u64 s d ;;", "| ELF64 => t <- u32 s d ;; z <- u64 s d ;; a <- u64 s d ;; _ <- u32 s d ;;", ["C02"]),
+    ("Model/Stream.v", "| ((s', e'), b) :: t => if (s' =? s) && (e' =? e) then Some b else cache_lookup s e t", "| ((s', e'), b) :: t => if (s' =? s) && (e <=? e') then Some b else cache_lookup s e t", ["C07", "C17"]),
+    ("Model/Stream.v", "    if n =? 0 then (Ok (view (content w) (r_pos r, r_pos r + n)), r) else", "    if n <? 0 then (Ok (view (content w) (r_pos r, r_pos r + n)), r) else", ["C07", "C08", "C17"]),
+    ("Model/Stream.v", "  | (Ok _, r0) => let (x, r1) := run_real w (open_prog fam) r0 in (x, clear_cache r1)", "  | (Ok _, r0) => let (x, r1) := run_real w (open_prog fam) r0 in (x, r1)", ["C07", "C08"]),
+    ("Model/SymVer.v", "Definition link_fuel (d : buf) : nat := S (S (N.to_nat (blen d))).", "Definition link_fuel (d : buf) : nat := S (N.to_nat (blen d)).", ["C13", "C16"]),
+    ("Model/Table.v", "Definition iter_fuel (d : buf) : nat := S (N.to_nat (blen d)).", "Definition iter_fuel (d : buf) : nat := N.to_nat (blen d).", ["C09", "C16"]),
 ]
 
 
